@@ -102,6 +102,12 @@ pub fn observe_call(u: &Unimock, m: M, x: u8) -> Step {
 
 /// Like `observe_call`, but the call is made on a scoped thread spawned for it and its panic
 /// propagates to that thread's boundary (observed through `join`).
+#[cfg(feature = "nolock")]
+pub fn observe_call_on_thread(_: &Unimock, _: M, _: u8) -> Step {
+    panic!("harness: without a mutex the mock is not Sync and cannot be called from another thread")
+}
+
+#[cfg(not(feature = "nolock"))]
 pub fn observe_call_on_thread(u: &Unimock, m: M, x: u8) -> Step {
     let sink = std::sync::Arc::new(std::sync::Mutex::new(Vec::new()));
     let arg = user_panic_arg();
